@@ -436,3 +436,59 @@ func (p *Program) exportedMethods(pkg *ssa.Package, typ string) []*ssa.Function 
 	sort.Slice(out, func(i, j int) bool { return out[i].Name() < out[j].Name() })
 	return out
 }
+
+// cmpOf: cond is a comparison — directly, or through a single-block boolean helper of the analysed set
+// whose result is a comparison of its parameters and constants ("func stepOverflows(n int32) bool
+// { return n >= limit }"). Operands that are parameters of the helper are replaced by the arguments of
+// the call, so the result reads as if the comparison were written at the call site.
+func cmpOf(cond ssa.Value) (token.Token, ssa.Value, ssa.Value, token.Pos, bool) {
+	switch x := cond.(type) {
+	case *ssa.BinOp:
+		switch x.Op {
+		case token.EQL, token.NEQ, token.LSS, token.LEQ, token.GTR, token.GEQ:
+			return x.Op, x.X, x.Y, x.Pos(), true
+		}
+	case *ssa.Call:
+		h := calleeOf(x)
+		if h == nil || !inAnalysed(h) || len(h.Blocks) != 1 || x.Call.IsInvoke() {
+			return 0, nil, nil, token.NoPos, false
+		}
+		ret, ok := lastInstr(h.Blocks[0]).(*ssa.Return)
+		if !ok || len(ret.Results) != 1 {
+			return 0, nil, nil, token.NoPos, false
+		}
+		bo, ok := ret.Results[0].(*ssa.BinOp)
+		if !ok {
+			return 0, nil, nil, token.NoPos, false
+		}
+		switch bo.Op {
+		case token.EQL, token.NEQ, token.LSS, token.LEQ, token.GTR, token.GEQ:
+		default:
+			return 0, nil, nil, token.NoPos, false
+		}
+		bind := func(v ssa.Value) (ssa.Value, bool) {
+			for {
+				if cv, ok := v.(*ssa.Convert); ok {
+					v = cv.X
+					continue
+				}
+				break
+			}
+			if _, isK := v.(*ssa.Const); isK {
+				return v, true
+			}
+			for i, prm := range h.Params {
+				if v == ssa.Value(prm) && i < len(x.Call.Args) {
+					return x.Call.Args[i], true
+				}
+			}
+			return nil, false
+		}
+		a, ok1 := bind(bo.X)
+		b, ok2 := bind(bo.Y)
+		if ok1 && ok2 {
+			return bo.Op, a, b, x.Pos(), true
+		}
+	}
+	return 0, nil, nil, token.NoPos, false
+}
